@@ -185,10 +185,38 @@ package stick
 //@   ensures empty: val != nil && iterk(ikind(val)) ==> (r0 == 0) == (rv_len(rv_ind(rv_of(val))) == 0)
 //@   loop 1 invariant 0 <= i && i <= ln && ln == rv_len(r) && loopOK(l, i, ln) && (rv_kind(r) == 23 || rv_kind(r) == 17) && rv_caniface(r)
 //@   loop 1 decreases ln - i
-//@   loop 2 invariant rangeindex >= -1 && rangeindex < len(keys) && len(keys) == ln && ln == rv_len(r) && rv_kind(r) == 21 && rv_caniface(r) && loopOK(l, rangeindex + 1, ln)
-//@   loop 2 invariant keys: local(keys) && (forall j trig :: 0 <= j && j < len(keys) ==> rv_valid(keys[j]) && rv_caniface(keys[j]) && rt_assignable(rv_type(keys[j]), rt_key(rv_type(r))) && rv_valid(rv_mapindex(r, keys[j])))
-//@   loop 2 decreases len(keys) - rangeindex
+// (the map branch walks the entries with a MapIter: its ghost position is the number of entries delivered so far)
+//@   loop 2 invariant 0 <= i && i <= ln && ln == rv_len(r) && rv_kind(r) == 21 && rv_caniface(r) && loopOK(l, i, ln) && iter != nil && iter.pos == i - 1 && iter.m == r
+//@   loop 2 decreases ln - i
 
+// hashable(v): a true answer means v can be hashed without a run-time panic (C02/C16: GetAttr looks a key up only then).
+// Assumed about this value (Go spec, comparison operators; A5): anything but a slice, map, function, interface, array
+// or struct is hashable; an interface value is if it is nil or its dynamic value is; an array / struct is if all its
+// elements / fields are.
+//@ func stick.hashable
+//@   requires valid: rv_valid(v)
+//@   assume hashbasic: rv_kind(v) != 23 && rv_kind(v) != 21 && rv_kind(v) != 19 && rv_kind(v) != 20 && rv_kind(v) != 17 && rv_kind(v) != 25 ==> rv_hashable(v)
+//@   assume hashnever: rv_kind(v) == 23 || rv_kind(v) == 21 || rv_kind(v) == 19 ==> !rv_hashable(v)
+//@   assume hashiface: rv_kind(v) == 20 ==> rv_hashable(v) == (rv_isnil(v) || rv_hashable(rv_elem(v)))
+//@   assume hasharray: rv_kind(v) == 17 ==> rv_hashable(v) == (forall j :: 0 <= j && j < rv_len(v) ==> rv_hashable(rv_index(v, j)))
+//@   assume hashstruct: rv_kind(v) == 25 ==> rv_hashable(v) == (forall j :: 0 <= j && j < rt_numfield(rv_type(v)) ==> rv_hashable(rv_fieldi(v, j)))
+//@   ensures sound: result ==> rv_hashable(v)
+//@   ensures complete: rv_hashable(v) ==> result
+//@   loop 1 invariant 0 <= i && rv_kind(v) == 17 && (forall j :: 0 <= j && j < i ==> rv_hashable(rv_index(v, j)))
+//@   loop 1 decreases rv_len(v) - i
+//@   loop 2 invariant 0 <= i && rv_kind(v) == 25 && (forall j :: 0 <= j && j < i ==> rv_hashable(rv_fieldi(v, j)))
+//@   loop 2 decreases rt_numfield(rv_type(v)) - i
+// fieldByName(r, name): never panics; walks the index path of the field, giving up at a nil embedded pointer.
+// Assumed about reflect (A5): the kind of a valid Value is the kind of its type; every step of the index path that
+// Type.FieldByName returns goes through a struct - after dereferencing an embedded pointer - and selects one of its fields.
+//@ func stick.fieldByName
+//@   requires struct: rv_valid(r) && rv_kind(r) == 25
+//@   assume kindtype: forall v trig :: rv_valid(v) ==> rv_kind(v) == rt_kind(rv_type(v))
+//@   assume path0: rt_pathtype(rv_type(r), name, 0) == rv_type(r)
+//@   assume path: forall k trig :: rt_hasfield(rv_type(r), name) && 0 <= k && k < rt_pathlen(rv_type(r), name) ==> rt_kind(rt_deref(rt_pathtype(rv_type(r), name, k))) == 25 && 0 <= rt_pathidx(rv_type(r), name, k) && rt_pathidx(rv_type(r), name, k) < rt_numfield(rt_deref(rt_pathtype(rv_type(r), name, k))) && rt_pathtype(rv_type(r), name, k + 1) == rt_fieldtype(rt_deref(rt_pathtype(rv_type(r), name, k)), rt_pathidx(rv_type(r), name, k))
+//@   assume deref: forall t:val trig :: rt_deref(t) == ite(rt_kind(t) == 22, rt_elem(t), t)
+//@   loop 1 invariant rangeindex >= -1 && rangeindex < len(sf.Index) && rv_valid(r) && rt_hasfield(rv_type(old(r)), name) && len(sf.Index) == rt_pathlen(rv_type(old(r)), name) && rv_type(r) == rt_pathtype(rv_type(old(r)), name, rangeindex + 1) && (forall k trig :: 0 <= k && k < len(sf.Index) ==> sf.Index[k] == rt_pathidx(rv_type(old(r)), name, k))
+//@   loop 1 decreases len(sf.Index) - rangeindex
 //@ func stick.Len
 //@   ensures nilval: val == nil ==> r0 == 0 && err == nil
 //@   ensures agree: val != nil ==> (err == nil) == iterk(ikind(val))
@@ -224,8 +252,9 @@ package stick
 //@+     err == nil && r0 == rv_iface(rv_index(cont(v), trunc(numspec(attr))))
 //@   ensures oob: rv_valid(cont(v)) && (rv_kind(cont(v)) == 23 || rv_kind(cont(v)) == 17) && (trunc(numspec(attr)) < 0 || trunc(numspec(attr)) >= rv_len(cont(v))) ==> err != nil
 //@   ensures badkey: rv_valid(cont(v)) && rv_kind(cont(v)) == 21 && (attr == nil || !rt_assignable(rv_type(rv_of(attr)), rt_key(rv_type(cont(v))))) ==> err != nil
-//@   ensures mapelem: rv_valid(cont(v)) && rv_kind(cont(v)) == 21 && attr != nil && rt_assignable(rv_type(rv_of(attr)), rt_key(rv_type(cont(v)))) && rv_valid(rv_mapindex(cont(v), rv_of(attr))) && rv_kind(rv_mapindex(cont(v), rv_of(attr))) != 19 && rv_caniface(cont(v)) ==>
+//@   ensures mapelem: rv_valid(cont(v)) && rv_kind(cont(v)) == 21 && attr != nil && rt_assignable(rv_type(rv_of(attr)), rt_key(rv_type(cont(v)))) && rv_hashable(rv_of(attr)) && rv_valid(rv_mapindex(cont(v), rv_of(attr))) && rv_kind(rv_mapindex(cont(v), rv_of(attr))) != 19 && rv_caniface(cont(v)) ==>
 //@+     err == nil && r0 == rv_iface(rv_mapindex(cont(v), rv_of(attr)))
+//@   ensures unhashable: rv_valid(cont(v)) && rv_kind(cont(v)) == 21 && attr != nil && !rv_hashable(rv_of(attr)) ==> err != nil
 //@   ensures mapmiss: rv_valid(cont(v)) && rv_kind(cont(v)) == 21 && attr != nil && rt_assignable(rv_type(rv_of(attr)), rt_key(rv_type(cont(v)))) && !rv_valid(rv_mapindex(cont(v), rv_of(attr))) ==> err != nil
 //@   ensures other: rv_valid(cont(v)) && rv_kind(cont(v)) != 25 && rv_kind(cont(v)) != 21 && rv_kind(cont(v)) != 23 && rv_kind(cont(v)) != 17 ==> err != nil
 //@   loop 1 invariant rangeindex >= -1 && len(rargs) == len(args) && local(rargs)
